@@ -2666,19 +2666,27 @@ where
                         );
                     }
                 }
-                Err(err) => return Err(err),
+                Err(err) => {
+                    *tds = tds_snapshot;
+                    return Err(err);
+                }
             }
 
             // Final attempt with alternate queue order.
-            *tds = tds_snapshot;
-            let stats3 = if D == 2 {
+            *tds = tds_snapshot.clone();
+            let attempt3_result = if D == 2 {
                 repair_delaunay_with_flips_k2_attempt(tds, kernel, retry_seed_cells, &attempt3)
             } else {
                 repair_delaunay_with_flips_k2_k3_attempt(tds, kernel, retry_seed_cells, &attempt3)
-            }?;
-
-            verify_repair_postcondition(tds, kernel, retry_seed_cells)?;
-            Ok(stats3)
+            }
+            .and_then(|stats3| {
+                verify_repair_postcondition(tds, kernel, retry_seed_cells).map(|()| stats3)
+            });
+            if attempt3_result.is_err() {
+                // Every attempt failed: leave the triangulation as it was before the repair.
+                *tds = tds_snapshot;
+            }
+            attempt3_result
         }
         Err(DelaunayRepairError::NonConvergent { .. }) => {
             if repair_trace_enabled() {
@@ -2713,21 +2721,32 @@ where
                         );
                     }
                 }
-                Err(err) => return Err(err),
+                Err(err) => {
+                    *tds = tds_snapshot;
+                    return Err(err);
+                }
             }
 
             // Final attempt with alternate queue order.
-            *tds = tds_snapshot;
-            let stats3 = if D == 2 {
+            *tds = tds_snapshot.clone();
+            let attempt3_result = if D == 2 {
                 repair_delaunay_with_flips_k2_attempt(tds, kernel, retry_seed_cells, &attempt3)
             } else {
                 repair_delaunay_with_flips_k2_k3_attempt(tds, kernel, retry_seed_cells, &attempt3)
-            }?;
-
-            verify_repair_postcondition(tds, kernel, retry_seed_cells)?;
-            Ok(stats3)
+            }
+            .and_then(|stats3| {
+                verify_repair_postcondition(tds, kernel, retry_seed_cells).map(|()| stats3)
+            });
+            if attempt3_result.is_err() {
+                // Every attempt failed: leave the triangulation as it was before the repair.
+                *tds = tds_snapshot;
+            }
+            attempt3_result
         }
-        Err(err) => Err(err),
+        Err(err) => {
+            *tds = tds_snapshot;
+            Err(err)
+        }
     }
 }
 
